@@ -10,7 +10,7 @@
      value  := L:<hex> | W:<path>
      path   := "." | seg(/seg)*
      action := W <path> <hex> | M <path> <ro> | X <path> | C <path> | E <hexk> <hexv> | P <path> <keep>
-             | D <id> <bad> | G <h> <neg> | O | F | K | T | Z | N (kill) | Y (kill; wait) | I <neg> <hexprog> action
+             | D <id> <bad> | G <h> <neg> | O | F | K | T | Z | N (kill) | Y (kill; wait) | U (wait) | I <neg> <hexprog> action
      -> per script "<verdict> regs=.. runs=.. bg=../../.. wp=<0|1> setup=<env>@<tree> probes=<n>(;<cwd>@<env>@<tree>)* conds=.. final=<tree>"
         joined by " | ", then " || root=<0|1> removals=<n> cancelled=<0|1> refcount=<n> alone=<ok|DIFF>"
 
@@ -62,7 +62,7 @@ let rec parse_action () : action =
   | "D" -> let i = next_int () in ADefer (nat_of_int i, bool_of (next ()))
   | "G" -> let h = next_int () in ABg (nat_of_int h, bool_of (next ()))
   | "O" -> AProbe | "F" -> AFail | "K" -> ASkip | "T" -> AStop | "Z" -> APanic
-  | "N" -> AKill | "Y" -> AKillWait
+  | "N" -> AKill | "Y" -> AKillWait | "U" -> AWait
   | "I" -> let neg = bool_of (next ()) in let prog = bytes_of_hex (next ()) in AIfExec (neg, prog, parse_action ())
   | t -> failwith ("bad action " ^ t)
 
@@ -112,6 +112,7 @@ let ints (l : nat list) = "(" ^ String.concat "," (List.map (fun n -> string_of_
 let verdict_string = function
   | Done VPass -> "PASS" | Done VStop -> "PASS" | Done VFail -> "FAIL" | Done VSetupFail -> "FAIL"
   | Done VSkip -> "SKIP" | Done VPanic -> "PANIC"
+  | Stuck -> "STUCK"
   | _ -> "UNFINISHED"
 let exit_string = function
   | Done VPass -> "pass" | Done VStop -> "stop" | Done VFail -> "fail" | Done VSetupFail -> "setupfail"
@@ -126,7 +127,7 @@ let render_script (ss : sstate) : string =
   let conds = List.filter_map (function EvCond (p, a) -> Some (hex_of_bytes p ^ "=" ^ b01 a) | _ -> None) ss.obs in
   Printf.sprintf "%s exit=%s regs=%s runs=%s bg=%s/%s/%s wp=%s setup=%s probes=%d%s conds=(%s) final=%s"
     (verdict_string ss.ph) (exit_string ss.ph) (ints (defer_regs ss.obs)) (ints (defer_runs ss.obs))
-    (ints (bg_started ss.obs)) (ints (List.sort_uniq Stdlib.compare (bg_interrupted ss.obs))) (ints (List.sort_uniq Stdlib.compare (bg_waited ss.obs)))
+    (ints (bg_started ss.obs)) (ints (List.sort_uniq Stdlib.compare (bg_gone ss.obs))) (ints (List.sort_uniq Stdlib.compare (bg_waited ss.obs)))
     (b01 ss.wpresent) setup (List.length probes) (String.concat "" (List.map (fun p -> ";" ^ p) probes))
     (String.concat "," conds) (render_tree ss.tr)
 
